@@ -231,6 +231,165 @@ def restart_weights(ctx) -> None:
              f"re-activated, so the weights no longer sum to one", stmt="restart padding")
 
 
+def _flat_grid_rule(r1, idx, g, GS) -> bool:
+    """R06.1 for an initial grid kept as ONE flat list addressed by the linear index i = x·s0 + y·s1 + z·s2 with the mixed-radix strides
+    s = (div1·div2, div2, 1).  False if get_K_list is not of this form."""
+    from ..algebra import Rat, to_rat
+    cfg, du, pm = GS.cfg, GS.du, GS.pm
+    drops = [s_ for s_ in stmts(g.node) if isinstance(s_, ast.Assign) and isinstance(s_.value, ast.Constant) and s_.value.value is None
+             and isinstance(s_.targets[0], ast.Subscript) and isinstance(s_.targets[0].value, ast.Name) and not isinstance(s_.targets[0].slice, (ast.Slice, ast.Tuple))]
+    if len(drops) != 1:
+        return False
+    d = drops[0]
+    kl = d.targets[0].value.id
+    img = norm(d.targets[0].slice)
+    r1.instance(f"{g.short}: {norm1(d)} (flat grid list)")
+    blk = next(b_ for b_ in (getattr(pm[d], "body", []), getattr(pm[d], "orelse", [])) if d in b_)
+    i = blk.index(d)
+    prev = blk[i - 1] if i > 0 else None
+    okp = isinstance(prev, ast.Expr) and isinstance(prev.value, ast.Call) and isinstance(prev.value.func, ast.Attribute) \
+        and prev.value.func.attr == "absorb" and prev.value.args and norm(prev.value.args[0]) == norm(d.targets[0])
+    r1.check(okp, "the dropped grid point is the one just absorbed", g, d,
+             f"`{norm1(d)}` removes a grid point whose weight was not transferred by an immediately preceding `.absorb({norm1(d.targets[0])})`")
+    if not okp:
+        return True
+    kpv = norm(prev.value.func.value)
+    at_d = cfg.node(d)
+    own_d = du.single_def(kpv, at_d) if kpv.isidentifier() else None
+    own_e = own_d.value if own_d is not None and own_d.kind == "assign" else None
+    if not (isinstance(own_e, ast.Subscript) and norm(own_e.value) == kl):
+        r1.expect(False, "", g, d, "get_K_list (flat grid): the absorbing K-point is not an element of the same list")
+        return True
+    own = own_e.slice
+
+    # symbols: components of self.div
+    def env(x):
+        t = norm(x).replace(" ", "")
+        for k_ in range(3):
+            if t == f"self.div[{k_}]":
+                return Rat.sym(f"d{k_}")
+        if isinstance(x, ast.Subscript) and isinstance(x.slice, ast.Constant) and isinstance(x.slice.value, int):
+            b_ = GS.resolve(x.value, env.at) if isinstance(x.value, ast.Name) else x.value
+            if isinstance(b_, ast.Call) and call_name(b_) in ("np.array", "np.asarray") and b_.args and isinstance(b_.args[0], (ast.List, ast.Tuple)) \
+                    and x.slice.value < len(b_.args[0].elts):
+                return to_rat(b_.args[0].elts[x.slice.value], env)
+        if isinstance(x, ast.Name):
+            r_ = GS.resolve(x, env.at)
+            if isinstance(r_, ast.Subscript) and norm(r_.value) == "self.div" and isinstance(r_.slice, ast.Constant):
+                return Rat.sym(f"d{r_.slice.value}")
+            if isinstance(r_, ast.Constant) and isinstance(r_.value, int):
+                return Rat.const(r_.value)
+            return Rat.sym(x.id)
+        return None
+    env.at = at_d
+    conds = GS.conditions(d, resolve=False)
+    # guard clauses `if <test>: continue` earlier in the enclosing loop bodies hold negated from there on
+    for l_ in enclosing_all(pm, d, ast.For):
+        for st_ in l_.body:
+            if st_.lineno >= d.lineno:
+                break
+            if isinstance(st_, ast.If) and not st_.orelse and len(st_.body) == 1 and isinstance(st_.body[0], ast.Continue):
+                conds = list(conds) + [(norm(st_.test), False, st_.test)]
+    own_t = norm(own)
+    self_excl = any((pol is False and txt.replace(" ", "") in (f"{img}=={own_t}", f"{own_t}=={img}")) or
+                    (pol is True and txt.replace(" ", "") in (f"{img}!={own_t}", f"{own_t}!={img}")) for txt, pol, _ in conds)
+    r1.check(self_excl, "a point never absorbs / drops itself", g, d, f"the self-image is not excluded (no test `{img} != {own_t}` guards the drop)")
+    live = any(pol is False and txt.replace(" ", "") in (f"{kpv}isNone", f"{kl}[{own_t}]isNone") for txt, pol, _ in conds) or \
+        any(pol is True and txt.replace(" ", "") in (f"{kpv}isnotNone", f"{kl}[{own_t}]isnotNone") for txt, pol, _ in conds)
+    r1.check(live, "the absorbing point is a grid point that is still present", g, d, "the absorbing K-point may already have been dropped (no `is not None` test)")
+    # strides
+    sloop = enclosing(pm, d, ast.For)
+    star_ok = False
+    strides = None
+    if sloop is not None and isinstance(sloop.target, ast.Name) and sloop.target.id == img:
+        GS.keep_names = {kpv}
+        it_ = GS.resolve(sloop.iter, cfg.node(sloop))
+        GS.keep_names = set()
+        for pat in ("ST_ @ SV_", "ST_.dot(SV_)", "np.dot(ST_, SV_)"):
+            m_ = pmatch(it_, pat, {"ST_", "SV_"})
+            if m_ and m_[0][0] is it_:
+                st_txt, sv_txt = m_[0][1]["ST_"], m_[0][1]["SV_"]
+                star_ok = any(x in st_txt for x in (f"np.round({kpv}.star * self.div)", f"np.rint({kpv}.star * self.div)")) and "% self.div" in st_txt and "int" in st_txt
+                sv = ast.parse(sv_txt, mode="eval").body
+                if isinstance(sv, ast.Call) and call_name(sv) in ("np.array", "np.asarray") and sv.args and isinstance(sv.args[0], (ast.List, ast.Tuple)) and len(sv.args[0].elts) == 3:
+                    try:
+                        strides = [to_rat(e_, env) for e_ in sv.args[0].elts]
+                    except AnalysisError:
+                        strides = None
+    r1.check(star_ok, "images are the star of the point, in integer grid coordinates folded onto the grid, turned into list positions by the strides", g, sloop or d,
+             "symmetry images are no longer (round(KP.star · div) mod div) · strides", stmt="star")
+    d0, d1, d2 = Rat.sym("d0"), Rat.sym("d1"), Rat.sym("d2")
+    ok_str = strides is not None and strides[0].equals(d1 * d2) and strides[1].equals(d2) and strides[2].equals(Rat.const(1))
+    r1.check(ok_str, "strides = (div1·div2, div2, 1): list position ↔ grid point is one-to-one", g, sloop or d,
+             f"the strides {[str(x) for x in strides] if strides else None} are not the mixed-radix strides of a div0 × div1 × div2 grid: two grid points share a list position")
+    # the absorbing point's position is x·s0 + y·s1 + z·s2 with (x, y, z) running over the whole grid
+    ok_own = False
+    loops = [l for l in enclosing_all(pm, d, ast.For) if l is not sloop]
+    if strides is not None and loops:
+        lp = loops[-1] if len(loops) == 1 else None
+        binds = {}
+        if lp is not None and isinstance(lp.iter, ast.Call) and call_name(lp.iter) == "np.ndindex" and isinstance(lp.target, ast.Tuple) and len(lp.target.elts) == 3 == len(lp.iter.args):
+            for t_, a_ in zip(lp.target.elts, lp.iter.args):
+                env.at = cfg.node(lp)
+                try:
+                    binds[norm(t_)] = to_rat(a_, env)
+                except AnalysisError:
+                    pass
+        elif len(loops) == 3:
+            for l in loops:
+                m_ = pmatch(GS.resolve(l.iter, cfg.node(l)), "range(self.div[AX])", {"AX"})
+                if m_ and isinstance(l.target, ast.Name):
+                    binds[l.target.id] = Rat.sym(f"d{m_[0][1]['AX']}")
+        if len(binds) == 3:
+            env.at = at_d
+            own_r = None
+            try:
+                own_d2 = du.single_def(own.id, at_d) if isinstance(own, ast.Name) else None
+                own_x = own_d2.value if own_d2 is not None and own_d2.kind == "assign" and own_d2.value is not None else own
+                own_r = to_rat(own_x, lambda x: Rat.sym(x.id) if isinstance(x, ast.Name) and x.id in binds else env(x))
+            except AnalysisError:
+                own_r = None
+            by_size = {}
+            for k_, v_ in binds.items():
+                for q_ in ("d0", "d1", "d2"):
+                    if v_.equals(Rat.sym(q_)):
+                        by_size[q_] = k_
+            if own_r is not None and all(k_ in by_size for k_ in ("d0", "d1", "d2")):
+                want = Rat.sym(by_size["d0"]) * strides[0] + Rat.sym(by_size["d1"]) * strides[1] + Rat.sym(by_size["d2"]) * strides[2]
+                ok_own = own_r.equals(want)
+    r1.check(ok_own, "every grid point (x, y, z) is visited as absorbing point at list position x·s0 + y·s1 + z·s2", g, d,
+             "the symmetry reduction does not visit every grid point at its own list position")
+    # creation order = list position
+    ctor = [c for c in ast.walk(g.node) if isinstance(c, ast.Call) and call_name(c) == "KpointBZparallel"]
+    okc = False
+    if len(ctor) == 1:
+        fv = kwarg(ctor[0], "factor")
+        fv = GS.resolve(fv, du.node_of_expr(ctor[0])) if fv is not None else None
+        okf = fv is not None and bool(pmatch(fv, "1.0 / np.prod(self.div)") or pmatch(fv, "1 / np.prod(self.div)") or pmatch(fv, "1.0 / self.div.prod()"))
+        comp = [n for n in ast.walk(g.node) if isinstance(n, ast.ListComp) and any(x is ctor[0] for x in ast.walk(n))]
+        okK = False
+        if len(comp) == 1 and len(comp[0].generators) == 1 and isinstance(comp[0].generators[0].iter, ast.Call) and call_name(comp[0].generators[0].iter) == "np.ndindex" \
+                and len(comp[0].generators[0].iter.args) == 3 and not comp[0].generators[0].ifs:
+            env.at = du.node_of_expr(ctor[0])
+            try:
+                sizes = [to_rat(a_, env) for a_ in comp[0].generators[0].iter.args]
+            except AnalysisError:
+                sizes = []
+            tv = norm(comp[0].generators[0].target)
+            kk = kwarg(ctor[0], "K")
+            okK = len(sizes) == 3 and all(sizes[k_].equals(Rat.sym(f"d{k_}")) for k_ in range(3)) and kk is not None and bool(pmatch(kk, f"np.array({tv}) * DK", {"DK"}))
+        okc = okf and okK
+    r1.check(okc, "initial grid: prod(div) points created in C order over (div0, div1, div2) — creation order equals the stride address — each of weight 1/prod(div)",
+             g, ctor[0] if ctor else g.node, "the initial grid is no longer prod(div) points of weight 1/prod(div) created in the order the strides address", stmt="initial weights")
+    flat = [s_ for s_ in stmts(g.node) if isinstance(s_, ast.Assign) and pmatch(s_.value, f"[K_ for K_ in {kl} if K_ is not None]", {"K_"})
+            and pmatch(s_.value, f"[K_ for K_ in {kl} if K_ is not None]", {"K_"})[0][0] is s_.value]
+    rets1 = [s_ for s_ in stmts(g.node) if isinstance(s_, ast.Return)]
+    r1.check(len(flat) == 1 and len(rets1) == 1 and norm(rets1[0].value) == norm(flat[0].targets[0]) and cfg.dominates(cfg.node(flat[0]), cfg.node(rets1[0])),
+             "the returned list keeps exactly the points that were not dropped", g, flat[0] if flat else g.node,
+             "the final K-list is not 'all grid points that were not dropped'", stmt="flatten")
+    return True
+
+
 def run(ctx) -> None:
     idx = ctx.index
 
@@ -245,108 +404,114 @@ def run(ctx) -> None:
             if isinstance(s_, ast.Assign) and const_of(s_.value) is None and isinstance(s_.value, ast.Constant) and isinstance(s_.targets[0], ast.Subscript) \
                     and isinstance(s_.targets[0].value, ast.Subscript) and isinstance(s_.targets[0].value.value, ast.Subscript):
                 sites.append((h, s_))
-    if len(sites) != 1:
-        raise AnalysisError(f"Grid.get_K_list: expected one `K_list[a][b][c] = None` (in it or its private helpers), found {len(sites)}")
-    h, d = sites[0]
-    HS = Sem(idx, h)
-    HS._caller_done = True     # reason in terms of the helper's own parameters
-    hpm = HS.pm
-    r1.instance(f"{h.short}: {norm1(d)}")
-    blk = next(b_ for b_ in (getattr(hpm[d], "body", []), getattr(hpm[d], "orelse", [])) if d in b_)
-    i = blk.index(d)
-    prev = blk[i - 1] if i > 0 else None
-    okp = isinstance(prev, ast.Expr) and isinstance(prev.value, ast.Call) and isinstance(prev.value.func, ast.Attribute) \
-        and prev.value.func.attr == "absorb" and prev.value.args and norm(prev.value.args[0]) == norm(d.targets[0])
-    r1.check(okp, "the dropped grid point is the one just absorbed", h, d,
-             f"`{norm1(d)}` removes a grid point whose weight was not transferred by an immediately preceding `.absorb({norm1(d.targets[0])})`: "
-             f"the weights of the irreducible points no longer sum to one")
-    at_d = HS.cfg.node(d)
+    def _nested_rule(h, d):
+        HS = Sem(idx, h)
+        HS._caller_done = True     # reason in terms of the helper's own parameters
+        hpm = HS.pm
+        r1.instance(f"{h.short}: {norm1(d)}")
+        blk = next(b_ for b_ in (getattr(hpm[d], "body", []), getattr(hpm[d], "orelse", [])) if d in b_)
+        i = blk.index(d)
+        prev = blk[i - 1] if i > 0 else None
+        okp = isinstance(prev, ast.Expr) and isinstance(prev.value, ast.Call) and isinstance(prev.value.func, ast.Attribute) \
+            and prev.value.func.attr == "absorb" and prev.value.args and norm(prev.value.args[0]) == norm(d.targets[0])
+        r1.check(okp, "the dropped grid point is the one just absorbed", h, d,
+                 f"`{norm1(d)}` removes a grid point whose weight was not transferred by an immediately preceding `.absorb({norm1(d.targets[0])})`: "
+                 f"the weights of the irreducible points no longer sum to one")
+        at_d = HS.cfg.node(d)
 
-    def coords(e):
-        """(list text, [i0, i1, i2] resolved index texts) of X[i0][i1][i2]"""
-        r_ = HS.resolve(e, at_d)
-        if isinstance(r_, ast.Subscript) and isinstance(r_.value, ast.Subscript) and isinstance(r_.value.value, ast.Subscript):
-            return norm(r_.value.value.value), [norm(r_.value.value.slice), norm(r_.value.slice), norm(r_.slice)]
-        return None, None
+        def coords(e):
+            """(list text, [i0, i1, i2] resolved index texts) of X[i0][i1][i2]"""
+            r_ = HS.resolve(e, at_d)
+            if isinstance(r_, ast.Subscript) and isinstance(r_.value, ast.Subscript) and isinstance(r_.value.value, ast.Subscript):
+                return norm(r_.value.value.value), [norm(r_.value.value.slice), norm(r_.value.slice), norm(r_.slice)]
+            return None, None
 
-    def as_tuple_base(ix):
-        """T if ix = [T[0], T[1], T[2]], else the tuple text (a, b, c)"""
-        if ix and all(x.endswith(f"[{k}]") for k, x in enumerate(ix)) and len({x[:-3] for x in ix}) == 1:
-            return ix[0][:-3]
-        return "(" + ", ".join(ix) + ")" if ix else None
-    kl, img = coords(d.targets[0])
-    kpv = norm(prev.value.func.value) if okp else None
-    own_l, own = coords(ast.Name(id=kpv, ctx=ast.Load())) if kpv and kpv.isidentifier() else (None, None)
-    r1.expect(kl is not None and own is not None and own_l == kl, "absorbing point and dropped image are elements of the same nested grid list", h, d,
-              "get_K_list: could not express the absorbing K-point and the dropped image as elements X[a][b][c] of one list")
-    if kl is None or own is None:
-        return
-    conds = HS.conditions(d)
-    T, O = as_tuple_base(img), as_tuple_base(own)
-    self_excl = any(pol is False and txt in (f"{T} == {O}", f"{O} == {T}") for txt, pol, _ in conds)
-    r1.check(self_excl, "a point never absorbs / drops itself", h, d, f"the self-image of a K-point is not excluded (no test `{T} != {O}` guards the drop): it would absorb itself and be dropped")
-    live = any(pol is False and txt.endswith(" is None") and HS.rnorm(ast.parse(txt[:-8], mode="eval").body, at_d) == f"{kl}[{own[0]}][{own[1]}][{own[2]}]" for txt, pol, _ in conds) or \
-        any(pol is False and txt == f"{kl}[{own[0]}][{own[1]}][{own[2]}] is None" for txt, pol, _ in conds)
-    r1.check(live, "the absorbing point is a grid point that is still present", h, d, "the absorbing K-point may already have been dropped (no `is not None` test)")
-    sloop = enclosing(hpm, d, ast.For)
-    star_ok = False
-    if sloop is not None:
-        it_ = HS.resolve(sloop.iter, HS.cfg.node(sloop))
-        txt_ = norm(it_)
-        kpe = f"{kl}[{own[0]}][{own[1]}][{own[2]}]"
-        star_ok = any(x in txt_ for x in (f"np.round({kpv}.star * self.div)", f"np.rint({kpv}.star * self.div)", f"np.round({kpe}.star * self.div)",
-                                          f"np.rint({kpe}.star * self.div)")) and "% self.div" in txt_ and "int" in txt_ \
-            and norm(sloop.target) in (T, ) + tuple([T] if T else [])
-    r1.check(star_ok, "images are the star of the point, in integer grid coordinates folded onto the grid", h, sloop or d,
-             "symmetry images are no longer round(KP.star · div) mod div", stmt="star")
-    # every grid point (x, y, z) gets its turn
-    anchor = d
-    own_in_g = own
-    if h is not g:
-        calls_h = [c for c in ast.walk(g.node) if isinstance(c, ast.Call) and (norm(c.func).endswith("." + h.name) or norm(c.func) == h.name)]
-        r1.expect(len(calls_h) == 1, "helper call located", g, g.node, f"get_K_list: single call of {h.name} not found")
-        if len(calls_h) != 1:
+        def as_tuple_base(ix):
+            """T if ix = [T[0], T[1], T[2]], else the tuple text (a, b, c)"""
+            if ix and all(x.endswith(f"[{k}]") for k, x in enumerate(ix)) and len({x[:-3] for x in ix}) == 1:
+                return ix[0][:-3]
+            return "(" + ", ".join(ix) + ")" if ix else None
+        kl, img = coords(d.targets[0])
+        kpv = norm(prev.value.func.value) if okp else None
+        own_l, own = coords(ast.Name(id=kpv, ctx=ast.Load())) if kpv and kpv.isidentifier() else (None, None)
+        r1.expect(kl is not None and own is not None and own_l == kl, "absorbing point and dropped image are elements of the same nested grid list", h, d,
+                  "get_K_list: could not express the absorbing K-point and the dropped image as elements X[a][b][c] of one list")
+        if kl is None or own is None:
             return
-        anchor = calls_h[0]
-        PS2 = Sem(idx, h, caller=(GSem, calls_h[0]))
-        _, own_in_g = (lambda r_: (None, [norm(r_.value.value.slice), norm(r_.value.slice), norm(r_.slice)]) if isinstance(r_, ast.Subscript) and isinstance(r_.value, ast.Subscript) and
-                       isinstance(r_.value.value, ast.Subscript) else (None, None))(PS2.simplify(PS2.resolve(ast.Name(id=kpv, ctx=ast.Load()), PS2.cfg.node(d)), 0))
-    lv = {}
-    for l in enclosing_all(pm, anchor, ast.For) if h is g else enclosing_all(pm, anchor, ast.For):
-        m_ = pmatch(GSem.resolve(l.iter, cfg.node(l)), "range(self.div[AX])", {"AX"})
-        if m_ and isinstance(l.target, ast.Name):
-            lv[int(m_[0][1]["AX"])] = l.target.id
-    r1.check(sorted(lv) == [0, 1, 2] and own_in_g == [lv[0], lv[1], lv[2]], "every grid point (x, y, z), x < div[0], y < div[1], z < div[2], is visited as absorbing point", g, anchor,
-             f"the symmetry reduction does not visit every grid point K[x][y][z] over range(div[0]) × range(div[1]) × range(div[2]) (loops {lv}, point {own_in_g})")
-    kl_g = kl
-    if h is not g:
-        S3 = Sem(idx, h, caller=(GSem, calls_h[0]))
-        b3 = S3._caller[2] if S3._caller else {}
-        kl_g = norm(b3[kl]) if kl in b3 else kl
-    ctor = [c for c in ast.walk(g.node) if isinstance(c, ast.Call) and call_name(c) == "KpointBZparallel"]
-    okc = False
-    if len(ctor) == 1:
-        fv = kwarg(ctor[0], "factor")
-        fv = GSem.resolve(fv, du.node_of_expr(ctor[0])) if fv is not None else None
-        okf = fv is not None and bool(pmatch(fv, "1.0 / np.prod(self.div)") or pmatch(fv, "1 / np.prod(self.div)") or pmatch(fv, "1.0 / self.div.prod()"))
-        comp = [n for n in ast.walk(g.node) if isinstance(n, ast.ListComp) and any(x is ctor[0] for x in ast.walk(n))]
-        gens = {}
-        for n in comp:
-            for ge in n.generators:
-                m_ = pmatch(GSem.resolve(ge.iter, du.node_of_expr(ctor[0])), "range(self.div[AX])", {"AX"})
-                if m_ and isinstance(ge.target, ast.Name) and not ge.ifs:
-                    gens[int(m_[0][1]["AX"])] = ge.target.id
-        kk = kwarg(ctor[0], "K")
-        okK = sorted(gens) == [0, 1, 2] and kk is not None and bool(pmatch(kk, f"np.array([{gens.get(0)}, {gens.get(1)}, {gens.get(2)}]) * DK", {"DK"}))
-        okc = okf and okK
-    r1.check(okc, "initial grid: prod(div) points (x, y, z)·dK, each of weight 1/prod(div)", g, ctor[0] if ctor else g.node,
-             "the initial grid is no longer prod(div) points of weight 1/prod(div)", stmt="initial weights")
-    flat = [s_ for s_ in stmts(g.node) if isinstance(s_, ast.Assign) and pmatch(s_.value, f"[K_ for A_ in {kl_g} for B_ in A_ for K_ in B_ if K_ is not None]", {"K_", "A_", "B_"})
-            and pmatch(s_.value, f"[K_ for A_ in {kl_g} for B_ in A_ for K_ in B_ if K_ is not None]", {"K_", "A_", "B_"})[0][0] is s_.value]
-    rets1 = [s_ for s_ in stmts(g.node) if isinstance(s_, ast.Return)]
-    r1.check(len(flat) == 1 and len(rets1) == 1 and norm(rets1[0].value) == norm(flat[0].targets[0]) and cfg.dominates(cfg.node(flat[0]), cfg.node(rets1[0])),
-             "the returned list keeps exactly the points that were not dropped", g, flat[0] if flat else g.node,
-             "the final K-list is not 'all grid points that were not dropped'", stmt="flatten")
+        conds = HS.conditions(d)
+        T, O = as_tuple_base(img), as_tuple_base(own)
+        self_excl = any(pol is False and txt in (f"{T} == {O}", f"{O} == {T}") for txt, pol, _ in conds)
+        r1.check(self_excl, "a point never absorbs / drops itself", h, d, f"the self-image of a K-point is not excluded (no test `{T} != {O}` guards the drop): it would absorb itself and be dropped")
+        live = any(pol is False and txt.endswith(" is None") and HS.rnorm(ast.parse(txt[:-8], mode="eval").body, at_d) == f"{kl}[{own[0]}][{own[1]}][{own[2]}]" for txt, pol, _ in conds) or \
+            any(pol is False and txt == f"{kl}[{own[0]}][{own[1]}][{own[2]}] is None" for txt, pol, _ in conds)
+        r1.check(live, "the absorbing point is a grid point that is still present", h, d, "the absorbing K-point may already have been dropped (no `is not None` test)")
+        sloop = enclosing(hpm, d, ast.For)
+        star_ok = False
+        if sloop is not None:
+            it_ = HS.resolve(sloop.iter, HS.cfg.node(sloop))
+            txt_ = norm(it_)
+            kpe = f"{kl}[{own[0]}][{own[1]}][{own[2]}]"
+            star_ok = any(x in txt_ for x in (f"np.round({kpv}.star * self.div)", f"np.rint({kpv}.star * self.div)", f"np.round({kpe}.star * self.div)",
+                                              f"np.rint({kpe}.star * self.div)")) and "% self.div" in txt_ and "int" in txt_ \
+                and norm(sloop.target) in (T, ) + tuple([T] if T else [])
+        r1.check(star_ok, "images are the star of the point, in integer grid coordinates folded onto the grid", h, sloop or d,
+                 "symmetry images are no longer round(KP.star · div) mod div", stmt="star")
+        # every grid point (x, y, z) gets its turn
+        anchor = d
+        own_in_g = own
+        if h is not g:
+            calls_h = [c for c in ast.walk(g.node) if isinstance(c, ast.Call) and (norm(c.func).endswith("." + h.name) or norm(c.func) == h.name)]
+            r1.expect(len(calls_h) == 1, "helper call located", g, g.node, f"get_K_list: single call of {h.name} not found")
+            if len(calls_h) != 1:
+                return
+            anchor = calls_h[0]
+            PS2 = Sem(idx, h, caller=(GSem, calls_h[0]))
+            _, own_in_g = (lambda r_: (None, [norm(r_.value.value.slice), norm(r_.value.slice), norm(r_.slice)]) if isinstance(r_, ast.Subscript) and isinstance(r_.value, ast.Subscript) and
+                           isinstance(r_.value.value, ast.Subscript) else (None, None))(PS2.simplify(PS2.resolve(ast.Name(id=kpv, ctx=ast.Load()), PS2.cfg.node(d)), 0))
+        lv = {}
+        for l in enclosing_all(pm, anchor, ast.For) if h is g else enclosing_all(pm, anchor, ast.For):
+            m_ = pmatch(GSem.resolve(l.iter, cfg.node(l)), "range(self.div[AX])", {"AX"})
+            if m_ and isinstance(l.target, ast.Name):
+                lv[int(m_[0][1]["AX"])] = l.target.id
+        r1.check(sorted(lv) == [0, 1, 2] and own_in_g == [lv[0], lv[1], lv[2]], "every grid point (x, y, z), x < div[0], y < div[1], z < div[2], is visited as absorbing point", g, anchor,
+                 f"the symmetry reduction does not visit every grid point K[x][y][z] over range(div[0]) × range(div[1]) × range(div[2]) (loops {lv}, point {own_in_g})")
+        kl_g = kl
+        if h is not g:
+            S3 = Sem(idx, h, caller=(GSem, calls_h[0]))
+            b3 = S3._caller[2] if S3._caller else {}
+            kl_g = norm(b3[kl]) if kl in b3 else kl
+        ctor = [c for c in ast.walk(g.node) if isinstance(c, ast.Call) and call_name(c) == "KpointBZparallel"]
+        okc = False
+        if len(ctor) == 1:
+            fv = kwarg(ctor[0], "factor")
+            fv = GSem.resolve(fv, du.node_of_expr(ctor[0])) if fv is not None else None
+            okf = fv is not None and bool(pmatch(fv, "1.0 / np.prod(self.div)") or pmatch(fv, "1 / np.prod(self.div)") or pmatch(fv, "1.0 / self.div.prod()"))
+            comp = [n for n in ast.walk(g.node) if isinstance(n, ast.ListComp) and any(x is ctor[0] for x in ast.walk(n))]
+            gens = {}
+            for n in comp:
+                for ge in n.generators:
+                    m_ = pmatch(GSem.resolve(ge.iter, du.node_of_expr(ctor[0])), "range(self.div[AX])", {"AX"})
+                    if m_ and isinstance(ge.target, ast.Name) and not ge.ifs:
+                        gens[int(m_[0][1]["AX"])] = ge.target.id
+            kk = kwarg(ctor[0], "K")
+            okK = sorted(gens) == [0, 1, 2] and kk is not None and bool(pmatch(kk, f"np.array([{gens.get(0)}, {gens.get(1)}, {gens.get(2)}]) * DK", {"DK"}))
+            okc = okf and okK
+        r1.check(okc, "initial grid: prod(div) points (x, y, z)·dK, each of weight 1/prod(div)", g, ctor[0] if ctor else g.node,
+                 "the initial grid is no longer prod(div) points of weight 1/prod(div)", stmt="initial weights")
+        flat = [s_ for s_ in stmts(g.node) if isinstance(s_, ast.Assign) and pmatch(s_.value, f"[K_ for A_ in {kl_g} for B_ in A_ for K_ in B_ if K_ is not None]", {"K_", "A_", "B_"})
+                and pmatch(s_.value, f"[K_ for A_ in {kl_g} for B_ in A_ for K_ in B_ if K_ is not None]", {"K_", "A_", "B_"})[0][0] is s_.value]
+        rets1 = [s_ for s_ in stmts(g.node) if isinstance(s_, ast.Return)]
+        r1.check(len(flat) == 1 and len(rets1) == 1 and norm(rets1[0].value) == norm(flat[0].targets[0]) and cfg.dominates(cfg.node(flat[0]), cfg.node(rets1[0])),
+                 "the returned list keeps exactly the points that were not dropped", g, flat[0] if flat else g.node,
+                 "the final K-list is not 'all grid points that were not dropped'", stmt="flatten")
+
+    if len(sites) == 1:
+        _nested_rule(*sites[0])
+    elif not sites and _flat_grid_rule(r1, idx, g, GSem):
+        pass
+    else:
+        raise AnalysisError(f"Grid.get_K_list: expected one `K_list[a][b][c] = None` (nested grid) or one `K_list[i] = None` with a stride address (flat grid), "
+                            f"in it or its private helpers; found {len(sites)} nested")
     ex = idx.function(KP, "exclude_equiv_points")
     ecfg, edu, epm = fctx(ex)
     ab = method_calls(ex.node, "absorb")
